@@ -416,6 +416,7 @@ fn emit(run: &mut Run, stream: &str, c: &Case) {
     // and the index of the last packet the reference accepted (webrtc-srtp tracks the *last* packet, not the highest)
     let mut high: std::collections::BTreeMap<(usize, u32), u64> = Default::default();
     let mut ref_last: std::collections::BTreeMap<(usize, u32), u64> = Default::default();
+    let mut sent_rtcp: std::collections::BTreeMap<(usize, u32), u32> = Default::default();
     for (i, op) in c.ops.iter().enumerate() {
         // decide expectation / mirroring before executing
         let mut expect_ok = false;
@@ -437,6 +438,7 @@ fn emit(run: &mut Run, stream: &str, c: &Case) {
         }
         if key.is_some() && !mirror && three { run.count("ref_skipped_outside_its_window"); }
         if let Op::SetState(s, false, ssrc, roc, Some(l), _) = op { high.insert((*s, *ssrc), ((*roc as u64) << 16) | *l as u64); }
+        if let Op::SetState(s, true, ssrc, _, _, idx) = op { sent_rtcp.insert((*s, *ssrc), *idx); }
         match (op, &r) {
             (Op::ProtectRtp(s, spec), Res::Bytes(b)) => {
                 run.count(&format!("protect_rtp:{}", w.prof[*s]));
@@ -474,10 +476,15 @@ fn emit(run: &mut Run, stream: &str, c: &Case) {
                 if sync {
                     let plain = w.slot_plain.last().unwrap();
                     let ssrc = u32::from_be_bytes([plain[4], plain[5], plain[6], plain[7]]);
-                    if let Some(st) = w.sess[*s].verif_tx_snapshot().iter().find(|x| x.0 == ssrc) {
+                    // the SRTCP index the sender MUST use: one more than for its previous SRTCP packet of this SSRC
+                    // (counted from the script, not read from the implementation; presets count as the start)
+                    let e = sent_rtcp.entry((*s, ssrc)).or_insert(0u32);
+                    *e = e.wrapping_add(1);
+                    let want_index = *e;
+                    {
                         let k = &w.keys[*s];
                         // E = 1 for the encrypting profiles, E = 0 (clear) for the NULL cipher
-                        let r = ref3711::protect_rtcp(&w.prof[*s], &k.0, &k.1, plain, st.3, w.prof[*s] != "null");
+                        let r = ref3711::protect_rtcp(&w.prof[*s], &k.0, &k.1, plain, want_index, w.prof[*s] != "null");
                         run.count("ref3711_rtcp_compared");
                         if r[..] != b[..] { run.fail(&format!("interop:ref3711-rtcp-protect-bytes-differ:{}:{}", w.prof[*s], c.kind), &case, &format!("op {i}: ours {} rfc {}", hex(b), hex(&r))); }
                     }
